@@ -114,6 +114,7 @@ def check_tracebacks(ctx, case):
         ("test, tearDown and a cleanup raise", _script({"test": t1, "tearDown": t2, "cleanup": t3}), [t1, t2, t3]),
         ("the test raises a MultipleExceptions of two", _script({"test": cm.multi("test", t1, t2)}), [t1, t2]),
         ("a cleanup raises a MultipleExceptions of two after the test failed", _script({"test": t3, "cleanup": cm.multi("cleanup", t1, t2)}), [t3, t1, t2]),
+        ("the test raises a MultipleExceptions one of whose members is a MultipleExceptions of two", _script({"test": cm.multi("test", t3, cm.multi("inner", t1, t2))}), [t3, t1, t2]),
         ("the test skips", _script({"test": "skip"}), []),
         ("the test raises _ExpectedFailure / _UnexpectedSuccess in tearDown", _script({"test": "xfail", "tearDown": "uxsuccess"}), []),
         ("the test fails, tearDown skips", _script({"test": t1, "tearDown": "skip"}), [t1]),
@@ -122,7 +123,7 @@ def check_tracebacks(ctx, case):
     pred = cm.raised("fail", "predicate")
     scenarios.append(("expectFailure whose predicate fails", _script(extra={"test": [("call", "expectFailure", [("const", "known"), cm.user("predicate")], [])], "predicate": [("raise", pred)]}), [pred]))
     if ctx.tier != "thorough":
-        scenarios = [s for i, s in enumerate(scenarios) if i not in (1, 5, 8)]
+        scenarios = [s for i, s in enumerate(scenarios) if i not in (1, 5, 9)]
     for label, script, raised in scenarios:
         d, runs = cm.run_case(ctx, script)
         problems = set()
@@ -211,7 +212,8 @@ def check_handlers(ctx, case):
     t1, t2, t3 = cm.raised("fail", "first"), cm.raised("error", "second"), cm.raised("skip", "third")
     reg = [("call", "addOnException", [cm.user("handler_a")], []), ("call", "addOnException", [cm.user("handler_b")], [])]
     for label, raising, want in (("one failure", {"test": t1}, [t1]), ("test, tearDown and cleanup raise (one a skip)", {"test": t1, "tearDown": t3, "cleanup": t2}, [t1, t3, t2]),
-                                 ("a MultipleExceptions of two", {"test": cm.multi("test", t1, t2)}, [t1, t2]), ("nothing raises", {}, [])):
+                                 ("a MultipleExceptions of two", {"test": cm.multi("test", t1, t2)}, [t1, t2]),
+                                 ("a MultipleExceptions inside a MultipleExceptions", {"test": cm.multi("test", t3, cm.multi("inner", t1, t2))}, [t3, t1, t2]), ("nothing raises", {}, [])):
         d, runs = cm.run_case(ctx, _script(raising, extra={"setUp": reg}))
         problems = set()
         for r in runs:
